@@ -16,9 +16,9 @@ func init() {
 type Pattern struct {
 	Kind   int    `json:"kind"` // 0 write, 1 update, 2 delete
 	Before [3]int `json:"before"`
-	After  [3]int `json:"after"` // 0 value, 1 NULL, 2 absent
-	Rows2  bool   `json:"rows2"` // a second row with the same presence and a rotated NULL pattern
-	Wide   int    `json:"wide"`  // >0: use the wide table, value set index Wide-1
+	After  [3]int `json:"after"`         // 0 value, 1 NULL, 2 absent
+	Rows2  bool   `json:"rows2"`         // a second row with the same presence and a rotated NULL pattern
+	Wide   int    `json:"wide"`          // >0: use the wide table, value set index Wide-1
 	Tab    string `json:"tab,omitempty"` // "" item table; "S"/"T" integer tables of mixed signedness; "N" string table
 }
 
@@ -302,6 +302,10 @@ func runC01(r *chk.Run) {
 		r.Set("tcp_loopback_histories", "skipped: no loopback listener available")
 	}
 	hr.finish()
+	// the same Streamer across a master restart (table ids are handed out again)
+	RunRestart(r)
+	// values whose text shares its leading part with the value decoded before
+	RunSharedText(r)
 	r.Validated(int64(ntcp))
 	r.Set("alphabet", alpha)
 	r.Set("depth", depth)
